@@ -503,6 +503,6 @@ def replay(doc):
 
 
 def jobs(tier, seed):
-    n, shards = (6000, 8) if tier == "quick" else (80000, 16)
+    n, shards = (6000, 8) if tier == "quick" else (600000, 16)
     return [{"name": "tables-%d" % k, "kind": "tables", "n": n // shards, "seed": seed * 1000 + 100 + k,
              "shrink": 300 if tier == "quick" else 1500} for k in range(shards)]
